@@ -283,7 +283,9 @@ class BlackbirdProgram:
             elif isinstance(v, np.ndarray):
                 # look through the array and, if there are any parameters,
                 # replace them with their corresponding values from kwargs
-                populated_array = copy.deepcopy(v)
+                # prog is already a deep copy: fill the array in place, so that
+                # operations taking this array as an argument see the values as well
+                populated_array = v
                 for i, j in np.ndindex(v.shape):
                     if isinstance(v[i][j], sym.Expr):
                         par = list(v[i][j].free_symbols)
